@@ -33,6 +33,9 @@ pub enum Edit {
     AddEnt { ns: u16, ent: EntSpec },
     /// new field appended at the end of an entity (nullable or with a default)
     AddFld { ent: u16, f: FieldSpec },
+    /// many new fields appended to one entity in a single version (storage identifiers run past two and
+    /// three digits)
+    AddManyFlds { ent: u16, n: u8, ty: u8 },
     /// change plain / nullable / default of a field (nullable -> plain is the refused one)
     SetKind { ent: u16, fld: u16, kind: u8, lit: u8 },
     DepFld { ent: u16, fld: u16 },
@@ -69,6 +72,7 @@ impl Edit {
             Edit::AddNs { .. } => "AddNs",
             Edit::AddEnt { .. } => "AddEnt",
             Edit::AddFld { .. } => "AddFld",
+            Edit::AddManyFlds { .. } => "AddManyFlds",
             Edit::SetKind { .. } => "SetKind",
             Edit::DepFld { .. } => "DepFld",
             Edit::DepEnt { .. } => "DepEnt",
@@ -158,7 +162,8 @@ fn edit() -> impl Strategy<Value = Edit> {
         // valid intent (weights sum 70)
         3 => ent_spec().prop_map(|ent| Edit::AddNs { ent }),
         8 => (i(), ent_spec()).prop_map(|(ns, ent)| Edit::AddEnt { ns, ent }),
-        24 => (i(), field_spec()).prop_map(|(ent, f)| Edit::AddFld { ent, f }),
+        23 => (i(), field_spec()).prop_map(|(ent, f)| Edit::AddFld { ent, f }),
+        1 => (i(), prop_oneof![2 => 2u8..12, 3 => 55u8..90], 0u8..4).prop_map(|(ent, n, ty)| Edit::AddManyFlds { ent, n, ty }),
         12 => (i(), i(), 0u8..3, 0u8..4).prop_map(|(ent, fld, kind, lit)| Edit::SetKind { ent, fld, kind, lit }),
         5 => (i(), i()).prop_map(|(ent, fld)| Edit::DepFld { ent, fld }),
         3 => i().prop_map(|ent| Edit::DepEnt { ent }),
@@ -418,6 +423,17 @@ pub fn apply_edits(cur: &Model, edits: &[Edit], opt: &Options) -> Candidate {
                     Intent::Valid
                 }
             }
+            Edit::AddManyFlds { ent, n, ty } => match ent_at(*ent) {
+                Some(at) if opt.multi_add || !existing.contains(&m.name_at(at)) => {
+                    for k in 0..*n {
+                        let spec = FieldSpec { ty: (*ty + k) % 4, kind: 1 + (k % 2), target: 0, lit: k % 4 };
+                        let fld = make_field(&mut m, &spec, opt, true, None);
+                        m.ent_mut(at).fields.push(fld);
+                    }
+                    Intent::Valid
+                }
+                _ => Intent::Noop,
+            },
             Edit::AddFld { ent, f } => match ent_at(*ent) {
                 Some(at) if may_add(&m, at, &mut excluded) => {
                     let fld = make_field(&mut m, f, opt, true, None);
